@@ -333,7 +333,7 @@ func Main(check *Check) {
 	seed, _ := strconv.ParseInt(envOr("VERIF_SEED", "0"), 10, 64)
 
 	if *replay != "" {
-		os.Exit(doReplay(check, *replay))
+		os.Exit(doReplay(check, *replay, *coop))
 	}
 	if *worker != "" {
 		var i, n int
@@ -734,7 +734,7 @@ func tailFile(p string) string {
 	return string(b)
 }
 
-func doReplay(check *Check, path string) int {
+func doReplay(check *Check, path string, coop bool) int {
 	b, err := os.ReadFile(path)
 	if err != nil {
 		fmt.Println(err)
@@ -744,6 +744,22 @@ func doReplay(check *Check, path string) int {
 	if err := json.Unmarshal(b, &v); err != nil {
 		fmt.Println(err)
 		return 2
+	}
+	// cases found by a worker of the controlled-scheduler build are replayed by that build
+	if check.CoopWorkers > 0 && !coop {
+		plain, _ := v.Repro["plain"].(bool)
+		if c, ok := v.Repro["coop"].(bool); (ok && c) || (!ok && !plain && check.Level == "model_checking") {
+			self, _ := os.Executable()
+			cmd := exec.Command(self+"-coop", "--coop", "--replay", path)
+			cmd.Stdout, cmd.Stderr = os.Stdout, os.Stderr
+			if err := cmd.Run(); err != nil {
+				if ee, ok := err.(*exec.ExitError); ok {
+					return ee.ExitCode()
+				}
+				return 2
+			}
+			return 0
+		}
 	}
 	if check.Replay == nil {
 		fmt.Println("no replay for", check.ID)
